@@ -3,6 +3,7 @@ from vlib.core import Case
 from vlib.gens import *
 
 GROUP = "text"
+USES_GEN = True
 READY = True
 LEAN_PROPS = "Dashu.Props.C07"
 LEAN_AUDIT = "Dashu.Audit.C07"
@@ -421,6 +422,45 @@ def nontrivial(c):
     return c.nontrivial
 
 
+def search(rng, tier, impl_exe, model_exe):
+    """Used by ./check when a proof obligation no longer checks (e.g. a regenerated definition changed) and the
+    correspondence produced no input: look for a failing input with the implementation alone, against digits computed
+    here in Python (plain default-format printing and parse-back of the tower-boundary numbers and the size classes)."""
+    import os, tempfile, shutil
+    from vlib import core
+    rs = [10, 36, 3, 7, 5, 24, 31]
+    cases = list(gen_tower(rng, tier, rs))
+    for r in rs:
+        for L in digit_lengths(r, tier, big=True):
+            n = num_with_digits(rng, r, L, "random")
+            cases.append(Case("u.fmt", ["r%d" % r, 0, "-", "none", hx(n)]))
+            cases.append(Case("u.parse", [sb(to_radix(n, r)), dec(r)], tag=hx(n)))
+    wd = tempfile.mkdtemp(prefix="verif-search-")
+    try:
+        path = os.path.join(wd, "cases.txt")
+        core.write_cases(path, cases)
+        got = core.run_side(impl_exe, path, len(cases), 60, "impl")
+    finally:
+        shutil.rmtree(wd, ignore_errors=True)
+    bad = []
+    for i, c in enumerate(cases):
+        if c.op.endswith(".fmt"):
+            v = int(c.args[4].lstrip("-"), 16)
+            neg = c.args[4].startswith("-") and v != 0
+            want = "ok " + sb(("-" if neg else "") + to_radix(v, int(c.args[0][1:])))
+        else:
+            want = "ok " + c.tag
+        if got.get(i, "missing") != want:
+            bad.append((c, got.get(i, "missing"), want))
+    if not bad:
+        return None
+    lines = ["# %d inputs on which the implementation alone contradicts the reference digits (python); first ones:" % len(bad)]
+    for c, g, w in bad[:10]:
+        lines.append(c.key())
+        lines.append("#   impl: %s | required: %s" % (g[:200], w[:120]))
+    return lines
+
+
 RULE = ("fmt: for each radix (quick: 2,8,10,16,36 + 5 drawn by rng; thorough: all 35) numbers with exactly L digits for L around "
         "digits_per_word, 2x, 16x (medium/large printer switch), 32x, 256x, (thorough: 512x, 1024x) digits_per_word in the patterns "
         "all-max-digit (z..z), 10..0, 10..01, sparse, random, both signs; word-boundary values (2^64, 2^128, range_per_word^k +-1); the "
@@ -450,6 +490,9 @@ REFINED = [
     "convert.rs UBig::to_le_bytes / from_le_bytes (+BE), inline and heap paths = positional bytes, mutually inverse, all W = 8k (ubig_bytes_model)",
     "convert.rs IBig::to_le_bytes / from_le_bytes (+BE): to_signed_le_bytes (sub_one_in_place, FLIP, resize of fix dcc404d), from_signed_le_bytes "
     "(one-padding, per-word complement, add_one_in_place) = two's complement spec, mutually inverse for every integer incl. -(2^(8k)) (ibig_bytes_model)",
+    "Tie A: the tower-loop test of PreparedLarge::new (Dashu.Gen.fmt_tower_stop), fmt CHUNK_LEN and parse CHUNK_LEN are regenerated from "
+    "the source text on every run and used by the model (buildPowers, fmtChunkLen, parseChunkLen); tower_length_shortcut_sound and "
+    "printer_buffers_never_overrun are theorems about the regenerated predicate",
     "fixed-size buffers as bounded arrays (Model/Text/Capacity.lean: PreparedWord/PreparedDword digit arrays, [Word; 16] chunk buffer, "
     "low_groups, write_chunk groups + assert, power-of-two digit arrays, DigitWriter, parse_word word arithmetic, Buffer::push capacity in "
     "parse_chunk / power_two::parse_large, length assertions of the D&C parser): never overrun, results equal the unbounded model, all inputs "
@@ -465,8 +508,6 @@ FRONTIER = [
     "arch::digits::digit_chunk_raw_to_ascii SWAR byte trick and DigitWriter buffering (modelled per byte)",
     "shift::shr_in_place / shl_in_place / add_in_place inside the chunk routines are builder-div's / C01's mirrored models with their proved specs (reused)",
     "big-endian byte functions modelled as mirror images (list reversal) of the little-endian ones",
-    "the condition of the tower loop (`2 * prev.len() - 1 > number.len()`) is transcribed by hand into Model/Text/Fmt.lean buildPowers; a "
-    "change of that source line is seen by the correspondence run (gen_tower), not by the theorem, until the line is extracted (Tie A)",
 ]
 THEOREMS = ["Dashu.Props.C07." + t for t in [
     "positional_representation", "radix_table", "print_non_pow2_digits", "print_size_classes", "big_chunk_padded",
